@@ -64,6 +64,36 @@ template<class T> struct Buf {
 };
 template<class T> struct Desc { bool operator()(const T& a, const T& b) const { return b < a; } };
 
+// sort() on a thread with a small stack: a recursion as deep as the array is long overflows it
+#include <pthread.h>
+#include <limits.h>
+struct IntDesc { bool operator()(const int& a, const int& b) const { return b < a; } };
+struct IntKey { long long operator()(const int& x) const { return x; } };
+struct SortJob { Array<int>* a; int mode; };
+static void* sortThread(void* p)
+{
+	SortJob* j = (SortJob*)p;
+	if (j->mode == 1) j->a->sort(IntDesc()); else if (j->mode == 2) j->a->sortBy(IntKey(), true); else j->a->sort();
+	return 0;
+}
+static bool ksort(Array<int>& a, int n, int mode)
+{
+	Array<int> r(n);
+	if (n > 0) r[0] = 0;
+	for (int m = 2; m <= n; m++) { r[m - 1] = r[m / 2]; r[m / 2] = m - 1; }   // the middle element is the maximum at every level
+	if (mode == 1) for (int i = 0; i < n; i++) r[i] = n - 1 - r[i];             // mirrored for the descending comparator
+	a = r;
+	SortJob job = { &a, mode };
+	pthread_attr_t at; pthread_attr_init(&at);
+	size_t sz = 24 * 1024; if (sz < (size_t)PTHREAD_STACK_MIN) sz = PTHREAD_STACK_MIN;
+	pthread_attr_setstacksize(&at, sz);
+	pthread_t th;
+	if (pthread_create(&th, &at, sortThread, &job) != 0) return false;
+	pthread_join(th, 0);
+	return true;
+}
+template<class T> static bool ksort(Array<T>&, int, int) { return false; }
+
 template<class T> static std::string view(const Array<T>* a)
 {
 	if (!a) return "-";
@@ -118,6 +148,7 @@ template<class C, class T> struct Table {
 		if (n < 3) return "bad-op";
 		int h = slot(t[2]);
 		if (op == "new" && n == 3) { delete H[h]; H[h] = 0; H[h] = new C(); return "ok"; }
+		if (op == "ksort" && n == 5) { if (!H[h]) H[h] = new C(); return ksort((Array<T>&)*H[h], (int)num(t[3]), (int)num(t[4])) ? "ok" : "bad-op"; }
 		if (op == "newp" && n >= 3) { Buf<T> b(t, 3); delete H[h]; H[h] = 0; Array<T> r(b.p, b.n); store(h, r); return "ok"; }
 		if (op == "newn" && n == 5) { T v; parse(t[4], v); delete H[h]; H[h] = 0; Array<T> r((int)num(t[3]), v); store(h, r); return "ok"; }
 		if (op == "cp" && n == 4) { int g = slot(t[3]); if (!H[g]) return "skip"; C* c = new C(*H[g]); delete H[h]; H[h] = c; return "ok"; }
